@@ -95,7 +95,7 @@ class C02(ProgProp):
 
     def gen(self, rng, tier, k, base_rng=None):
         brng = base_rng or rng
-        cfg = gen.swarm(brng, self.cfg)
+        cfg = gen.swarm(brng, self.base_cfg(tier))
         spec = gen.gen_program(brng, cfg)
         pos = positions(spec)
         brng.shuffle(pos)
